@@ -351,6 +351,14 @@ func rt_9(c *core.Ctx, p *core.Prog) {
 					name = f.Pkg().Path() + "." + f.Name()
 				}
 				if framingOK[name] {
+					// FormatFloat is injective on float64 only with the shortest round-trip precision (-1) at bit size 64
+					if name == "strconv.FormatFloat" && len(x.Call.Args) == 4 {
+						prec, okP := core.ConstInt(x.Call.Args[2])
+						bits, okB := core.ConstInt(x.Call.Args[3])
+						if !okP || !okB || prec != -1 || bits != 64 {
+							bad = append(bad, fmt.Sprintf("%s: a float64 is formatted with precision %d at bit size %d: values that differ beyond that precision get the same text", p.Pos(w.Pos()), prec, bits))
+						}
+					}
 					continue
 				}
 				bad = append(bad, fmt.Sprintf("%s: text produced by %s is written verbatim", p.Pos(w.Pos()), name))
